@@ -162,6 +162,11 @@ class ConcurrentExecutor(ABC, Generic[CallableType, ResultType]):
 
         # Event-driven state tracking for when the executor is done
         self._completion_event = threading.Event()
+        # Done-callbacks run concurrently in the pool's worker threads. Updating a branch's
+        # status, the counters and taking the complete/suspend decision must be one atomic step,
+        # otherwise a callback can see another branch's new status with stale counters and
+        # decide to suspend although the completion policy is already decided.
+        self._task_complete_lock = threading.Lock()
         self._suspend_exception: SuspendExecution | None = None
         # BaseException (e.g. BackgroundThreadError after a failed checkpoint) raised by a branch
         # or by the timer thread: re-raised on the thread that waits in execute()
@@ -323,6 +328,16 @@ class ConcurrentExecutor(ABC, Generic[CallableType, ResultType]):
             exe_state.suspend()
             return
 
+        with self._task_complete_lock:
+            self._handle_task_complete(exe_state, future, scheduler)
+
+    def _handle_task_complete(
+        self,
+        exe_state: ExecutableWithState,
+        future: Future,
+        scheduler: TimerScheduler,
+    ) -> None:
+        """Update branch state and counters and decide completion/suspension (under lock)."""
         try:
             result = future.result()
             exe_state.complete(result)
